@@ -357,7 +357,7 @@ def work(ctx, tier):
             viol("bad-hint", f"_parse_retry_after({v[:60]!r}) = {r!r}", {"value": v[:200], "len": len(v), "tag": "parser"})
 
     # ------------------------------------------------------------------ random part
-    n = (15000 if tier == "quick" else 600000) // ctx.nshards
+    n = (60000 if tier == "quick" else 1000000) // ctx.nshards
     alphabet = "0123456789 +-.,:;eExX_abcGMTWedOctJan\t\n ٣９é🙂\x00"
     for i in range(n):
         r = rng.random()
@@ -382,7 +382,7 @@ def work(ctx, tier):
         check_value(v, rng.choice(SHAPES), rng.choice(CASINGS), rng.choice(["headers", "response", "attr"]), tag)
 
     # ------------------------------------------------------------------ end to end
-    n2 = (2500 if tier == "quick" else 80000) // ctx.nshards
+    n2 = (10000 if tier == "quick" else 160000) // ctx.nshards
     for i in range(n2):
         _end_to_end(ctx, viol, rng, i)
     if ctx.shard == 0:
